@@ -1,8 +1,14 @@
 """C07 -- push delivers the exact file bytes, within protocol size limits."""
+import errno
+import fcntl
 import io
 import os
 import shutil
+import struct
 import tempfile
+import termios
+import threading
+import time as real_time
 
 from vlib import gen, scen, wire
 
@@ -17,7 +23,7 @@ RULE = ("file: push of a real file / BytesIO with sizes around the chunk and max
 ASSUMPTIONS = ["the `mkdir` shell stream that push opens first for a directory is tolerated, not demanded", "sub-directories of a pushed directory are not transferred (the statement speaks of regular files directly inside)"]
 SHARDS = {"quick": 8, "thorough": 16}
 TIME_BUDGET = {"quick": 300, "thorough": 1800}
-FLOORS = {"quick": {"pushes": 500, "data_records": 2000, "dir_pushes": 40, "cbdiff_triples": 80, "distinct": 150}, "thorough": {"pushes": 6000, "dir_pushes": 400, "cbdiff_triples": 300}}
+FLOORS = {"quick": {"pushes": 500, "data_records": 2000, "dir_pushes": 40, "cbdiff_triples": 80, "distinct": 150, "reconnects": 60, "fifo_pauses": 20}, "thorough": {"pushes": 6000, "dir_pushes": 400, "cbdiff_triples": 300}}
 
 
 def sizes_for(maxdata, rng, tier):
@@ -63,6 +69,13 @@ def gen_cases(tier, seed):
         yield {"kind": "special", "impl": ("sync", "async")[j % 2], "maxdata": rng.choice(mds[:4]), "cb": [None, "ok", "raise", "ok"][j % 4], "seed": "%d:sp%d" % (seed, j)}
     for j in range(120 if tier == "quick" else 900):
         yield {"kind": "cbdiff", "impl": ("sync", "async")[j % 2], "maxdata": rng.choice(mds[:5]), "size": rng.choice([0, 1, 3000, 10000, 70000]), "seed": "%d:c%d" % (seed, j)}
+    # one device object re-connected (with and without close() in between) to devices announcing other maxdata values: every push obeys the CURRENT limit
+    for j in range(60 if tier == "quick" else 600):
+        yield {"kind": "reconnect", "impl": ("sync", "async")[j % 2], "maxdata": rng.choice(mds), "seed": "%d:rc%d" % (seed, j)}
+    # a source that delivers its bytes in pieces: a named pipe whose writer pauses between pieces (read() may return less than asked before end of file)
+    for j in range(12 if tier == "quick" else 80):
+        yield {"kind": "fifo", "impl": ("sync", "async")[j % 2], "maxdata": [4096, 4096, 1024 * 1024, 8192][j % 4],
+               "pieces": [[1000, 500], [3000, 2048, 7], [70000, 65536, 1], [1, 1, 1], [4096, 4096], [100, 9000]][(j // 2) % 6], "seed": "%d:ff%d" % (seed, j)}
     for j in range(180 if tier == "quick" else 1500):
         yield {"kind": "dir", "impl": ("sync", "async")[j % 2], "maxdata": rng.choice(mds[:4]), "nfiles": j % 6, "subdir": (j // 6) % 2 == 1, "seed": "%d:d%d" % (seed, j)}
 
@@ -121,6 +134,95 @@ def run_case(case):
                     sample = {"case": case, "step": step if plen < 100 else dict(step, path=step["path"][:40] + "..."), "records": (["SEND " + repr(p["spec"][:40])] + ["DATA %d" % c for c in p["chunks"][:6]] + ["DONE %r" % p["mtime"], "status " + str(p["status"])]) if p else None,
                               "wrte_sizes": [len(pk.payload) for (_, pk) in sess.sim.host_log if pk.cmd == "WRTE"][:8]}
                 return {"sig": sig, "violations": _dedupe(viol), "stats": stats, "sample": sample}
+            finally:
+                sess.dispose()
+        if case["kind"] == "reconnect":
+            sess = gen.make_session(case["impl"], dict(dims, noise=[]), case["seed"])
+            r = scen.Runner(sess, {"dims": dims, "steps": []})
+            r.tmp = tmp
+            try:
+                mds_seen = [case["maxdata"]]
+                for k in range(rng.choice([2, 3])):
+                    md = mds_seen[-1]
+                    chunk = min(65536, md // 2)
+                    step = {"op": "push", "path": "/rc%d" % k, "size": rng.choice([2 * chunk + 5, 70000 + k, 3 * chunk, 100]), "seed": case["seed"] + str(k), "src": rng.choice(["bytesio", "file"]),
+                            "mode": 0o100644, "mtime": 5, "cb": rng.choice([None, "ok"])}
+                    out, v = r.do_push(k, step)
+                    viol += v
+                    stats["pushes"] += 1
+                    for mv in sess.monitor.of("C07"):
+                        viol.append(mk("C07", mv.rule, "connection #%d of one device object (maxdata announced so far: %r): %s" % (k + 1, mds_seen, mv.detail)))
+                    if viol:
+                        break
+                    md2 = rng.choice([m for m in gen.MAXDATAS if m != md])
+                    mds_seen.append(md2)
+                    if rng.random() < 0.4:
+                        sess.call("close")
+                    sess.sim.maxdata = md2
+                    o = sess.call("connect")
+                    stats["reconnects"] = stats.get("reconnects", 0) + 1
+                    if not (o.ok and o.value is True):
+                        viol.append(mk("C07", "reconnect-failed", "connect() #%d: %s" % (k + 2, o.brief(100))))
+                        break
+                stats["max_wrte"] = sess.monitor.max_wrte
+                for p in sess.sim.sync_plan.pushed:
+                    stats["data_records"] += len(p["chunks"])
+                return {"sig": "reconnect|%s|%s" % (case["impl"], ">".join(str(m) for m in mds_seen)), "violations": _dedupe(viol), "stats": stats,
+                        "sample": {"case": case, "maxdata_sequence": mds_seen} if case["seed"].endswith("rc3") else None}
+            finally:
+                sess.dispose()
+        if case["kind"] == "fifo":
+            sess = gen.make_session(case["impl"], dict(dims, noise=[]), case["seed"])
+            try:
+                path = os.path.join(tmp, "pipe")
+                os.mkfifo(path)
+                pieces = [scen.blob(case["seed"] + str(k), n) for k, n in enumerate(case["pieces"])]
+                info = {"short_reads_possible": 0}
+
+                def writer():
+                    t_end = real_time.time() + 20
+                    fd = None
+                    while fd is None and real_time.time() < t_end:
+                        try:
+                            fd = os.open(path, os.O_WRONLY | os.O_NONBLOCK)
+                        except OSError as e:
+                            if e.errno != errno.ENXIO:
+                                raise
+                            real_time.sleep(0.001)       # nobody reads the pipe yet
+                    if fd is None:
+                        return
+                    fcntl.fcntl(fd, fcntl.F_SETFL, fcntl.fcntl(fd, fcntl.F_GETFL) & ~os.O_NONBLOCK)
+                    try:
+                        for pc in pieces:
+                            os.write(fd, pc)
+                            while real_time.time() < t_end and struct.unpack("i", fcntl.ioctl(fd, termios.FIONREAD, b"\0\0\0\0"))[0] > 0:
+                                real_time.sleep(0.001)
+                            real_time.sleep(0.02)        # the reader has taken everything written so far and now waits for more
+                            info["short_reads_possible"] += 1
+                    except OSError:
+                        pass
+                    finally:
+                        os.close(fd)
+                th = threading.Thread(target=writer, daemon=True)
+                th.start()
+                out = sess.call("push", path, "/from-pipe", mtime=5)
+                th.join(25)
+                stats["pushes"] += 1
+                stats["fifo_sources"] = 1
+                stats["fifo_pauses"] = info["short_reads_possible"]
+                content = b"".join(pieces)
+                pushed = sess.sim.sync_plan.pushed
+                if not out.ok:
+                    viol.append(mk("C07", "raised:%s" % out.exc_name(), "push(<named pipe, pieces %r>) raised %s" % (case["pieces"], out.brief(120))))
+                elif len(pushed) != 1 or bytes(pushed[0]["data"]) != content or pushed[0]["status"] != "OKAY":
+                    viol.append(mk("C07", "wrong-bytes", "push(<named pipe written in pieces %r>): device file has %s bytes, the pipe delivered %d before end of file" % (
+                        case["pieces"], len(pushed[0]["data"]) if pushed else None, len(content))))
+                for mv in sess.monitor.of("C07"):
+                    viol.append(mk("C07", mv.rule, mv.detail))
+                for p in pushed:
+                    stats["data_records"] += len(p["chunks"])
+                return {"sig": "fifo|%s|%d|%s" % (case["impl"], case["maxdata"], case["pieces"]), "violations": _dedupe(viol), "stats": stats,
+                        "sample": {"case": case, "pauses": info["short_reads_possible"]} if case["seed"].endswith("ff1") else None}
             finally:
                 sess.dispose()
         if case["kind"] == "special":
